@@ -860,11 +860,11 @@ func genTags(r *verifx.Rng, st *store) {
 	}
 }
 
-// round 7: one series in four scenarios (with at least two series) has events only BEFORE the visible part of the time scale
+// round 7: in two of five scenarios with at least two series, one series has events only BEFORE the visible part of the time scale
 // (in the hidden points an extended range loads): such a series must not take part in topk/bottomk ranking nor appear in
 // the result, whatever later operators do (Series.removeEmpty looks at the view only).
 func genHiddenOnly(r *verifx.Rng, st *store) int {
-	if len(st.tags) >= 2 && r.Chance(1, 4) {
+	if len(st.tags) >= 2 && r.Chance(2, 5) {
 		return r.Intn(len(st.tags))
 	}
 	return -1
